@@ -673,6 +673,8 @@ def run(ctx, rep):
     r14g(ctx, rep)
     r14h(ctx, rep)
     r14i(ctx, rep)
+    from .C15 import fresh_results
+    fresh_results(ctx, rep, "R14j", "Vector", "marwood::vm::vcell::VCell::vector", "vector", "vector-set!", 1, 3)
     from . import C06
     C06.r06a_restricted(ctx, rep, "R14p", ["marwood::vm::builtin::vector::", "marwood::vm::builtin::list::", "marwood::vm::vector::", "marwood::vm::compare::"],
                         "the list and vector procedures never abort", 20)
